@@ -253,6 +253,10 @@ static void diffCase(vh::Rng& g, int fShape = -1, int fRoute = -1, int fDflt = -
     std::string key = "diff." + std::string(kind == 0 ? (polyDeg == 1 ? "affine" : polyDeg == 2 ? "quadratic" : "cubic") : kind == 1 ? "sin" : "exp") +
                       (order == 1 ? ".forward" : ".central");
     emitMethod(m, dflt, order);
+    {   // documented: an explicit method wins, otherwise the Differentiator's default, otherwise ForwardDifference
+        int expect = m == 2 ? 2 : m == 1 ? 1 : dflt == 2 ? 2 : 1;
+        vh::P("method_as_documented", std::string("diff.method.") + (m != 0 ? "explicit" : omit ? "omitted" : "unspecified") + ".default" + std::to_string(dflt) + "." + route, std::abs(order - expect), 0);
+    }
     vh::D(std::string("method.") + (omit ? "omitted" : m == 0 ? "unspecified" : "explicit") + ".default" + std::to_string(dflt) + "." + route);
     if (omit && dflt == 2) ++g_defaultCentralOmitted;
     vh::P("call_count", key + ".calls", std::abs(ncalls - order * n) + std::abs(diff.getNumCallsToUserFunction() - (int)g_log.size()), 0);
